@@ -39,8 +39,9 @@ def opSettle (j : Json) : P Json := do
   | .ok (pay, rake) => pure (Json.mkObj ([("pay", listJ ratJ pay), ("rake", listJ intJ rake)] ++ specOn))
   | .error e => pure (Json.mkObj ([("err", Json.str e.name), ("rake", listJ intJ (Pot.rakePerPlayer fl ⟨f, cap⟩ bal rp))] ++ specOn))
 
-def handle (j : Json) : P Json := do
+partial def handle (j : Json) : P Json := do
   match ← asStr (← fld j "op") with
+  | "multi" => do let rs ← (← asArr (← fld j "reqs")).mapM handle; pure (Json.arr rs.toArray)
   | "rake" => opRake j
   | "settle" => opSettle j
   | "poker" => opPoker j
